@@ -9,8 +9,17 @@ const ALPHA: &[&str] = &["a", "b", "x", " ", "é", "Ł", "€", "😀", "\n", "\
 pub fn gen_doc_text(rng: &mut Rng, max: usize) -> String {
     let n = rng.below(max + 1);
     let mut s = String::new();
+    // characters a server might be tempted to normalise away: a byte order mark in front (or anywhere), Unicode
+    // line/paragraph separators and NEL (no line terminators for LSP), tabs, NUL
+    if rng.chance(1, 10) {
+        s.push('\u{feff}');
+    }
     for _ in 0..n {
-        s.push_str(*rng.pick(ALPHA));
+        if rng.chance(1, 24) {
+            s.push_str(*rng.pick(&["\u{feff}", "\u{2028}", "\u{2029}", "\u{85}", "\t", "\u{0}", "\u{b}", "\u{c}"]));
+        } else {
+            s.push_str(*rng.pick(ALPHA));
+        }
     }
     s
 }
